@@ -568,6 +568,31 @@ theorem T_C16_circle_closest_real {C e1 e2 : Vec ℝ} (hF : Frame e1 e2) {r ρ :
   have := mul_nonneg (mul_nonneg hr hρ) (sub_nonneg.mpr (Real.cos_le_one (t - φ)))
   linarith
 
+/-- The model of `CircleCurve._circle_function` (Rodrigues' rotation of the rim point about the unit normal through the origin) stays
+    on the circle for every `(ct, st)` of the unit circle: at the in-plane radius from the circle's centre `O + (n·v) n` and in the
+    plane orthogonal to the normal -/
+theorem T_C16_circle_point (O rim n : V) (ct st : Rat) (hn : Vec.nsq n = 1) (hcs : ct * ct + st * st = 1) :
+    Vec.nsq (Vec.sub (circlePoint O rim n ct st) (Vec.add O (Vec.smul (Vec.dot n (Vec.sub rim O)) n)))
+      = Vec.nsq (Vec.sub rim O) - Vec.dot n (Vec.sub rim O) * Vec.dot n (Vec.sub rim O) ∧
+    Vec.dot (Vec.sub (circlePoint O rim n ct st) (Vec.add O (Vec.smul (Vec.dot n (Vec.sub rim O)) n))) n = 0 := by
+  obtain ⟨v, hv⟩ : ∃ v, v = Vec.sub rim O := ⟨_, rfl⟩
+  have e1 : Vec.nsq (Vec.sub (circlePoint O rim n ct st) (Vec.add O (Vec.smul (Vec.dot n (Vec.sub rim O)) n)))
+      = ct * ct * (Vec.nsq v - 2 * (Vec.dot n v * Vec.dot n v) + Vec.dot n v * Vec.dot n v * Vec.nsq n)
+        + st * st * (Vec.nsq n * (Vec.nsq v - 2 * (Vec.dot n v * Vec.dot n v) + Vec.dot n v * Vec.dot n v * Vec.nsq n)
+            - (Vec.dot n v - Vec.dot n v * Vec.nsq n) * (Vec.dot n v - Vec.dot n v * Vec.nsq n)) := by
+    rw [hv]; simp only [circlePoint, Vec.nsq, Vec.dot, Vec.sub, Vec.add, Vec.smul, Vec.cross]; ring
+  have e2 : Vec.dot (Vec.sub (circlePoint O rim n ct st) (Vec.add O (Vec.smul (Vec.dot n (Vec.sub rim O)) n))) n
+      = ct * Vec.dot n v * (1 - Vec.nsq n) := by
+    rw [hv]; simp only [circlePoint, Vec.nsq, Vec.dot, Vec.sub, Vec.add, Vec.smul, Vec.cross]; ring
+  rw [e1, e2, hn, ← hv]
+  constructor
+  · linear_combination (Vec.nsq v - Vec.dot n v * Vec.dot n v) * hcs
+  · ring
+
+example : Vec.nsq (⟨0, 0, 1⟩ : V) = 1 ∧ ((3 / 5 : Rat) * (3 / 5) + (4 / 5) * (4 / 5) = 1) ∧
+    circlePoint ⟨1, 1, 0⟩ ⟨6, 1, 2⟩ ⟨0, 0, 1⟩ (3 / 5) (4 / 5) = ⟨4, 5, 2⟩ := by
+  refine ⟨by decide +kernel, by norm_num, by decide +kernel⟩
+
 /-! ### round 6: tie to the source text (tables regenerated by `cbv/tables/c16.py` with `ast` on every run) -/
 
 open CBV.C08 (chain opsAt operandsAt cmpOp) in
